@@ -1809,4 +1809,33 @@ theorem invertPermuted_left (n : Nat) (A : Mat) (rp cp sizes : List Nat) (X : Ma
 
 end Perm
 
+
+theorem isPermOfRange_perm (n : Nat) (l : List Nat) (h : isPermOfRange n l = true) :
+    l.Perm (List.range n) := by
+  simp only [isPermOfRange, Bool.and_eq_true, beq_iff_eq, List.all_eq_true, List.mem_range,
+    List.contains_iff_mem] at h
+  obtain ⟨hl, hall⟩ := h
+  have hsub : (List.range n).Subperm l :=
+    List.Nodup.subperm List.nodup_range (fun i hi => hall i (List.mem_range.mp hi))
+  exact (hsub.perm_of_length_le (by simp [hl])).symm
+
+theorem blockDiagIndexRect_square (o : Nat) (sz : List Nat) :
+    (blockDiagIndexRect o o sz sz).1 = blockDiagIndex o sz := by
+  induction sz generalizing o with
+  | nil => rfl
+  | cons s ss ih => simp [blockDiagIndexRect, blockDiagIndex, ih]
+
+theorem blockDiagIndexRect_lengths (ro co : Nat) (m n : List Nat) :
+    (blockDiagIndexRect ro co m n).1.length = (blockDiagIndexRect ro co m n).2.length := by
+  induction m generalizing ro co n with
+  | nil => simp [blockDiagIndexRect]
+  | cons a m ih =>
+    cases n with
+    | nil => simp [blockDiagIndexRect]
+    | cons b n =>
+      simp only [blockDiagIndexRect, List.length_append, ih]
+      congr 1
+      simp [List.length_flatMap, Nat.mul_comm]
+
+
 end PorepyVerif.C37
